@@ -348,7 +348,12 @@ func verifyVoucher(ctx context.Context, transport Transport, to1d *cose.Sign1[pr
 	// was signed by the intended owner service.
 	ownerPub := ov.Header.Val.ManufacturerKey
 	if len(ov.Entries) > 0 {
-		ownerPub = ov.Entries[len(ov.Entries)-1].Payload.Val.PublicKey
+		last := ov.Entries[len(ov.Entries)-1].Payload
+		if last == nil {
+			captureErr(ctx, protocol.InvalidMessageErrCode, "")
+			return fmt.Errorf("last entry of ownership voucher has no payload")
+		}
+		ownerPub = last.Val.PublicKey
 	}
 	expectedOwnerPub, err := ownerPub.Public()
 	if err != nil {
@@ -436,6 +441,10 @@ func sendHelloDevice(ctx context.Context, transport Transport, c *TO2Config) (pr
 		if err := cbor.NewDecoder(resp).Decode(&proveOVHdr); err != nil {
 			captureErr(ctx, protocol.MessageBodyErrCode, "")
 			return protocol.Nonce{}, nil, nil, fmt.Errorf("error parsing TO2.ProveOVHdr contents: %w", err)
+		}
+		if proveOVHdr.Payload == nil {
+			captureErr(ctx, protocol.MessageBodyErrCode, "")
+			return protocol.Nonce{}, nil, nil, fmt.Errorf("error parsing TO2.ProveOVHdr contents: no payload")
 		}
 		defer clear(proveOVHdr.Payload.Val.KeyExchangeA)
 
@@ -857,6 +866,10 @@ func proveDevice(ctx context.Context, transport Transport, proveDeviceNonce prot
 			captureErr(ctx, protocol.MessageBodyErrCode, "")
 			return protocol.Nonce{}, nil, fmt.Errorf("error parsing TO2.SetupDevice contents: %w", err)
 		}
+		if setupDevice.Payload == nil {
+			captureErr(ctx, protocol.MessageBodyErrCode, "")
+			return protocol.Nonce{}, nil, fmt.Errorf("error parsing TO2.SetupDevice contents: no payload")
+		}
 		if setupDevice.Payload.Val.NonceTO2SetupDv != setupDeviceNonce {
 			captureErr(ctx, protocol.InvalidMessageErrCode, "")
 			return protocol.Nonce{}, nil, fmt.Errorf("nonce in TO2.SetupDevice did not match nonce sent in TO2.ProveDevice")
@@ -919,6 +932,9 @@ func (s *TO2Server) setupDevice(ctx context.Context, msg io.Reader) (*cose.Sign1
 	var proof cose.Sign1Tag[cbor.RawBytes, []byte]
 	if err := cbor.NewDecoder(msg).Decode(&proof); err != nil {
 		return nil, fmt.Errorf("error decoding TO2.ProveDevice request: %w", err)
+	}
+	if proof.Payload == nil {
+		return nil, fmt.Errorf("error decoding TO2.ProveDevice request: token has no payload")
 	}
 	var eat eatoken
 	if err := cbor.Unmarshal([]byte(proof.Payload.Val), &eat); err != nil {
